@@ -339,6 +339,40 @@ pub fn string_families(ctx: &mut Ctx, judge: &mut dyn FnMut(&mut Ctx, Case)) {
     ctx.rng = rng;
 }
 
+/// Expressions nested 100 .. 600 levels deep (far below the depths at which the recursive evaluator runs out of stack, see C19): the
+/// composition of sub-results is the same at every depth.
+pub fn deep_expressions(ctx: &mut Ctx, judge: &mut dyn FnMut(&mut Ctx, Case)) {
+    ctx.align();
+    let facts = Value::Map([("a".to_string(), Value::Int(3)), ("n".to_string(), Value::None), ("t".to_string(), Value::Bool(true))].into_iter().collect());
+    for depth in [100usize, 127, 128, 129, 200, 255, 256, 257, 400, 512, 513, 600] {
+        if !ctx.mine() {
+            continue;
+        }
+        let fold = |leaf: Expr, f: &dyn Fn(Expr, usize) -> Expr| (0..depth).fold(leaf, |e, i| f(e, i));
+        let shapes: Vec<Expr> = vec![
+            fold(Expr::reff("a"), &|e, _| Expr::add(e, Expr::value(1))),
+            fold(Expr::reff("a"), &|e, _| Expr::add(Expr::value(1), e)),
+            fold(Expr::reff("a"), &|e, i| if i % 2 == 0 { Expr::neg(e) } else { Expr::sub(Expr::value(0), e) }),
+            fold(Expr::reff("t"), &|e, i| if i % 2 == 0 { Expr::not(e) } else { Expr::and(Expr::value(true), e) }),
+            fold(Expr::reff("t"), &|e, _| Expr::or(Expr::value(false), e)),
+            fold(Expr::reff("a"), &|e, _| Expr::iif(Expr::reff("t"), e, Expr::value(0))),
+            fold(Expr::reff("a"), &|e, _| Expr::iif(Expr::value(false), Expr::value(0), e)),
+            fold(Expr::reff("a"), &|e, _| Expr::index(Expr::Vec(vec![Expr::value(0), e]), Index::from(1usize))),
+            fold(Expr::reff("a"), &|e, _| Expr::index(Expr::Map([("k".to_string(), e)].into_iter().collect()), Index::from("k"))),
+            fold(Expr::reff("a"), &|e, _| Expr::int(e)),
+            fold(Expr::reff("n"), &|e, i| if i % 2 == 0 { Expr::add(e, Expr::value(1)) } else { Expr::uppercase(e) }),
+            fold(Expr::reff("a"), &|e, _| Expr::mult(e, Expr::value(2))),
+            fold(Expr::reff("a"), &|e, i| if i % 3 == 0 { Expr::bitwise_and(e, Expr::value(-1)) } else { Expr::bitwise_or(e, Expr::value(0)) }),
+            fold(Expr::reff("a"), &|e, _| Expr::eq(Expr::eq(e, Expr::value(3)), Expr::value(true))),
+            fold(Expr::Vec(vec![]), &|e, _| Expr::Vec(vec![e])),
+            fold(Expr::reff("facts"), &|e, _| Expr::index(e, Index::from("missing"))),
+        ];
+        for e in &shapes {
+            judge(ctx, Case { expr: e, facts: &facts, cell: String::new(), family: "deep-expressions" });
+        }
+    }
+}
+
 /// Operands beyond every small size: strings of 1 KiB .. 1 MiB (with multi-byte characters at and around power-of-two byte offsets)
 /// through every string operator, lists of 1000 .. 70 000 elements and maps of 5000 keys through membership, indexing and equality.
 pub fn big_operands(ctx: &mut Ctx, judge: &mut dyn FnMut(&mut Ctx, Case)) {
